@@ -13,11 +13,11 @@ func init() { register("C05", "other", checkC05) }
 
 // HandOff is a send of a RemoteUserLogin on a channel.
 type HandOff struct {
-	Fn     *ssa.Function
-	In     ssa.Instruction // *ssa.Select or *ssa.Send
-	State  int             // select state index (-1 for a bare send)
-	Chan   ssa.Value
-	Val    ssa.Value
+	Fn    *ssa.Function
+	In    ssa.Instruction // *ssa.Select or *ssa.Send
+	State int             // select state index (-1 for a bare send)
+	Chan  ssa.Value
+	Val   ssa.Value
 }
 
 func findHandOffs(p *Prog) []HandOff {
@@ -762,7 +762,6 @@ func chanMake(r *Resolver, v ssa.Value) ssa.Value {
 }
 
 var _ = strings.Join
-
 
 // hctx is a calling context: a resolver binding the parameters of a
 // helper to the values of the dispatch entry function that reaches it.
